@@ -394,8 +394,16 @@ impl ProveState {
         let child_chain_root = child.parent_chain_root();
         let end_number: BlockNumber = child_chain_root.end_number().unpack();
         let parent_total_difficulty: U256 = child_chain_root.total_difficulty().unpack();
-        end_number == parent.header().number()
-            && parent_total_difficulty == parent.total_difficulty()
+        if end_number != parent.header().number()
+            || parent_total_difficulty != parent.total_difficulty()
+        {
+            return false;
+        }
+        // The difficulty of the child is what is added to the stored total difficulty: in the
+        // epoch of the proved parent it is fixed (as `verify_tau` requires for a proof); a child
+        // which starts a new epoch has to be proved.
+        let same_epoch = child.header().epoch().number() == parent.header().epoch().number();
+        same_epoch && child.header().compact_target() == parent.header().compact_target()
     }
 
     pub(crate) fn get_last_header(&self) -> &VerifiableHeader {
